@@ -36,11 +36,39 @@ macro_rules! gh_obj {
             }
             h.finalize_to_vec()
         })();
-        match r {
-            Ok(v) => ok(&v),
-            Err(_) => "err".to_string(),
+        // the one-shot forms of the object API on the concatenation: hash / hash_to_vec (and the *_with_defaults forms for 32/32)
+        let all: Vec<u8> = $chunks.concat();
+        let one: Result<Vec<u8>, dryoc::Error> = if keyv.is_empty() {
+            GenericHash::<$k, $o>::hash_to_vec::<_, [u8; $k]>(&all, None)
+        } else {
+            let ka: [u8; $k] = arr(&keyv);
+            GenericHash::<$k, $o>::hash_to_vec(&all, Some(&ka))
+        };
+        let one2: Result<dryoc::types::StackByteArray<$o>, dryoc::Error> = if keyv.is_empty() {
+            GenericHash::<$k, $o>::hash::<_, [u8; $k], _>(&all, None)
+        } else {
+            let ka: [u8; $k] = arr(&keyv);
+            GenericHash::<$k, $o>::hash(&all, Some(&ka))
+        };
+        match (r, one, one2) {
+            (Ok(v), Ok(w), Ok(x)) => if v == w && x.as_slice() == v.as_slice() { ok(&v) } else { format!("mismatch incremental {} != one-shot {}", hex(&v), hex(&w)) },
+            (Err(_), Err(_), Err(_)) => "err".to_string(),
+            _ => "mismatch incremental/one-shot result".to_string(),
         }
     }};
+}
+
+fn gh_defaults(key: &[u8], chunks: &[Vec<u8>]) -> Option<String> {
+    use dryoc::generichash::GenericHash;
+    let all: Vec<u8> = chunks.concat();
+    let ka: Option<[u8; 32]> = if key.is_empty() { None } else { Some(arr(key)) };
+    let a: Vec<u8> = GenericHash::hash_with_defaults_to_vec(&all, ka.as_ref()).ok()?;
+    let b: dryoc::generichash::Hash = GenericHash::hash_with_defaults(&all, ka.as_ref()).ok()?;
+    let mut h = GenericHash::new_with_defaults(ka.as_ref()).ok()?;
+    for c in chunks { h.update(c); }
+    let c: Vec<u8> = h.finalize_to_vec().ok()?;
+    if a != c || b.as_slice() != a.as_slice() { return Some("mismatch *_with_defaults forms".into()); }
+    Some(ok(&a))
 }
 
 pub fn dispatch(op: &str, a: &[&str]) -> Option<Ans> {
@@ -188,7 +216,14 @@ pub fn dispatch(op: &str, a: &[&str]) -> Option<Ans> {
             let chunks: Vec<Vec<u8>> = b[1..].to_vec();
             let klen = if key.is_empty() { 32 } else { key.len() };
             let r = match (klen, outlen) {
-                (32, 32) => gh_obj!(32, 32, key, chunks),
+                (32, 32) => {
+                    let r = gh_obj!(32, 32, key, chunks);
+                    match gh_defaults(&key, &chunks) {
+                        Some(d) if d == r => r,
+                        Some(d) if d.starts_with("mismatch") => d,
+                        _ => "mismatch defaults forms != GenericHash<32,32>".to_string(),
+                    }
+                }
                 (16, 16) => gh_obj!(16, 16, key, chunks),
                 (64, 64) => gh_obj!(64, 64, key, chunks),
                 (32, 64) => gh_obj!(32, 64, key, chunks),
@@ -225,7 +260,10 @@ pub fn dispatch(op: &str, a: &[&str]) -> Option<Ans> {
             let d = st.finalize_to_vec();
             let all: Vec<u8> = b.concat();
             let one = Sha512::compute_to_vec(&all);
-            if one != d {
+            let mut into = vec![0xA5u8; 64];
+            Sha512::compute_into_bytes(&mut into, &all);
+            let arrform: [u8; 64] = Sha512::compute(&all);
+            if one != d || into != d || arrform[..] != d[..] {
                 (format!("mismatch {} {}", hex(&d), hex(&one)), na())
             } else {
                 (ok(&d), na())
@@ -293,6 +331,9 @@ pub fn dispatch(op: &str, a: &[&str]) -> Option<Ans> {
         "increment" => {
             let mut v = b[0].clone();
             dryoc::utils::increment_bytes(&mut v);
+            let mut v2 = b[0].clone();
+            dryoc::utils::sodium_increment(&mut v2);
+            if v2 != v { return Some(("mismatch sodium_increment != increment_bytes".into(), "n/a".into())); }
             let mut s = b[0].clone();
             unsafe { so::sodium_increment(s.as_mut_ptr(), s.len()) };
             (ok(&v), ok(&s))
